@@ -23,9 +23,16 @@ def axiom(name):
   AXIOMS_USED.add(name)
 
 
+_UNION_AWARE = set()
+
+
 def call_builtin(I_, f, args, kws, st, ctx, k, node):
   m = _TABLE.get(f)
   if m is not None:
+    if f not in _UNION_AWARE:
+      for i, a in enumerate(args):
+        if isinstance(a, Union):
+          return I_.split(a, st, lambda st2, x: call_builtin(I_, f, list(args[:i]) + [x] + list(args[i + 1:]), kws, st2, ctx, k, node))
     return m(I_, args, kws, st, ctx, k, node)
   # any Union argument: split
   for i, a in enumerate(args):
@@ -599,6 +606,30 @@ def m_object(I_, args, kws, st, ctx, k, node):
   return k(st, st.alloc("obj", object, {}))
 
 
+def m_reduce(I_, args, kws, st, ctx, k, node):
+  f, seq = args[0], args[1]
+  def got(st2, items):
+    items = list(items)
+    if len(args) > 2:
+      acc0 = args[2]
+    else:
+      if not items:
+        return I_.raise_exc(st2, ctx, TypeError, "reduce() of empty iterable with no initial value", node)
+      acc0 = items.pop(0)
+    def step(j, st3, acc):
+      if j >= len(items):
+        return k(st3, acc)
+      return I_.call_value(f, [acc, items[j]], {}, st3, ctx, lambda st4, r: step(j + 1, st4, r), node)
+    return step(0, st2, acc0)
+  return iter_values(I_, seq, st, ctx, got, node)
+
+
+def m_operator(opnode):
+  def m(I_, args, kws, st, ctx, k, node):
+    return I_.binop(opnode, args[0], args[1], st, ctx, k, node)
+  return m
+
+
 def m_id_passthrough(I_, args, kws, st, ctx, k, node):
   return k(st, args[0])
 
@@ -871,3 +902,12 @@ _TABLE = {
   _socket.inet_aton: m_inet_aton, _socket.inet_ntoa: m_inet_ntoa,
   _time.time: m_time,
 }
+_UNION_AWARE.update([builtins.isinstance, builtins.len, builtins.type, builtins.bool, builtins.hasattr,
+                     builtins.getattr, builtins.setattr, builtins.callable, builtins.int, builtins.str,
+                     builtins.bytes, builtins.hash, builtins.id, builtins.repr])
+import functools as _functools
+import operator as _operator
+_TABLE[_functools.reduce] = m_reduce
+for _fn, _nd in ((_operator.add, ast.Add()), (_operator.sub, ast.Sub()), (_operator.mul, ast.Mult()),
+                 (_operator.or_, ast.BitOr()), (_operator.and_, ast.BitAnd()), (_operator.xor, ast.BitXor())):
+  _TABLE[_fn] = m_operator(_nd)
